@@ -103,6 +103,28 @@ pub struct Script {
 }
 
 impl Script {
+    pub fn hash_into(&self, h: &mut crate::util::Fnv) {
+        for (tag, v) in [(1u64, &self.pre), (2, &self.drain), (3, &self.post)] {
+            h.add(tag);
+            for o in v {
+                h.add(o.code() as u64);
+                match o {
+                    Op::Chunk { n, consume } => {
+                        h.add(*n as u64);
+                        h.add(*consume as u64);
+                    }
+                    Op::Buffered { n, pulls, consume } => {
+                        h.add(*n as u64);
+                        h.add(*pulls as u64);
+                        h.add(*consume as u64);
+                    }
+                    Op::Values { k } | Op::IdsValues { k } => h.add(*k as u64),
+                    Op::ForEach { n } | Op::EnumForEach { n } | Op::Fold { n } => h.add(*n as u64),
+                    _ => {}
+                }
+            }
+        }
+    }
     pub fn render(&self) -> J {
         let r = |v: &Vec<Op>| J::A(v.iter().map(|o| J::S(o.render())).collect());
         J::obj().set("pre", r(&self.pre)).set("drain_until_end", r(&self.drain)).set("post", r(&self.post))
@@ -137,6 +159,7 @@ pub fn profile(name: &str) -> Profile {
         "len" => Profile { name: "len", w: [5, 5, 5, 4, 1, 1, 1, 1, 0, 8, 8, 1], drain16: 8, post16: 10, max_pre: 8, skips: true },
         "foreach" => Profile { name: "foreach", w: [2, 2, 2, 2, 1, 1, 6, 6, 6, 0, 0, 0], drain16: 8, post16: 6, max_pre: 3, skips: false },
         "iterwait" => Profile { name: "iterwait", w: [6, 6, 6, 6, 2, 2, 1, 1, 1, 1, 1, 2], drain16: 8, post16: 6, max_pre: 6, skips: true },
+        "race" => Profile { name: "race", w: [6, 3, 3, 3, 1, 1, 1, 1, 0, 0, 0, 1], drain16: 16, post16: 2, max_pre: 2, skips: true },
         "drops" => Profile { name: "drops", w: [5, 5, 8, 8, 1, 1, 1, 1, 1, 0, 0, 2], drain16: 5, post16: 4, max_pre: 6, skips: true },
         other => panic!("unknown profile {other}"),
     }
